@@ -89,23 +89,35 @@ def check(case) -> Outcome:
     if len(set(ids)) < len(ids):
         classes.append("element_twice")
     feats = list(classes)
-    # ---- the concatenated value itself
+    from ..world import snapshot
+    before = snapshot(objs)
+    # ---- the concatenated value itself (the same query object is evaluated twice)
     try:
         V, _ = declare_vars(case, objs)
         with symbolic_mode():
             c = concatenate(getattr(V[0], case["inner"]))
             q = an(entity(c))
-        res = list(q.evaluate())
     except Exception as e:
-        return fail("exception_value", f"an(entity(concatenate(p.{case['inner']}))): {type(e).__name__}: {e}; expected one "
-                                       f"row {flat}", nontrivial=nontrivial, classes=classes, features=feats)
-    if len(res) != 1:
-        return fail("not_exactly_one_row", f"concatenate produced {len(res)} rows {res}; expected exactly one: {flat}",
-                    nontrivial=nontrivial, classes=classes, features=feats)
-    val = res[0]
-    if not isinstance(val, (list, tuple)) or [ident((x,)) for x in val] != ids:
-        return fail("wrong_concatenation", f"concatenate value {val!r}; expected (in order, with multiplicity) {flat!r}",
-                    nontrivial=nontrivial, classes=classes, features=feats)
+        return fail("exception_value", f"building: {type(e).__name__}: {e}", nontrivial=nontrivial, classes=classes,
+                    features=feats)
+    for attempt in (1, 2):
+        try:
+            res = list(q.evaluate())
+        except Exception as e:
+            return fail("exception_value", f"evaluation {attempt} of an(entity(concatenate(p.{case['inner']}))): "
+                                           f"{type(e).__name__}: {e}; expected one row {flat}", nontrivial=nontrivial,
+                        classes=classes, features=feats)
+        if len(res) != 1:
+            return fail("not_exactly_one_row", f"evaluation {attempt}: concatenate produced {len(res)} rows {res}; expected "
+                                               f"exactly one: {flat}", nontrivial=nontrivial, classes=classes, features=feats)
+        val = res[0]
+        if not isinstance(val, (list, tuple)) or [ident((x,)) for x in val] != ids:
+            return fail("wrong_concatenation", f"evaluation {attempt}: concatenate value {val!r}; expected (in order, with "
+                                               f"multiplicity) {flat!r}", nontrivial=nontrivial, classes=classes,
+                        features=feats)
+    if snapshot(objs) != before:
+        return fail("user_data_modified", "evaluating the concatenation changed an attribute (or an inner collection) of a "
+                                          "dataset object", nontrivial=nontrivial, classes=classes, features=feats)
     # ---- membership of an outer variable (single-variable query: ordered comparison)
     try:
         V, _ = declare_vars(case, objs)
@@ -121,6 +133,9 @@ def check(case) -> Outcome:
     except Exception as e:
         return fail("exception_membership", f"{type(e).__name__}: {e}", nontrivial=nontrivial, classes=classes,
                     features=feats)
+    if snapshot(objs) != before:
+        return fail("user_data_modified", "evaluating the membership query changed an attribute (or an inner collection) "
+                                          "of a dataset object", nontrivial=nontrivial, classes=classes, features=feats)
     want = [(o,) for o in (non_members if case["negate"] else members)]
     bad = compare_lists(want, got)
     if bad:
